@@ -349,6 +349,18 @@ class PartialJoin(UnaryOperation):
         from ._deduplication import Deduplication
         from ._projection import Projection
 
+        if self.binary.max_columns != self.binary.min_columns:
+            # Resolve the common columns against the relation this operation
+            # logically acts on (as `_begin_apply` does), so they cannot change
+            # when the operation is moved upstream.
+            common_columns = self.binary.applied_common_columns(self.fixed, current)
+            replacement = dataclasses.replace(
+                self,
+                binary=dataclasses.replace(
+                    self.binary, min_columns=common_columns, max_columns=common_columns
+                ),
+            )
+            return replacement.commute(current)
         if self.binary.max_columns == self.binary.min_columns:
             # Columns the new target (or the operation in between) shares with
             # the fixed relation beyond the equality constraint would be
